@@ -2,6 +2,10 @@ package main
 
 import (
 	"crypto/aes"
+	"crypto/cipher"
+	"crypto/hmac"
+	"crypto/sha256"
+	"crypto/sha512"
 	"encoding/hex"
 	"encoding/json"
 	"fmt"
@@ -41,6 +45,53 @@ func eciesEncLine(r *rng, pub pt, msg []byte, failAt int) (string, []byte) {
 	var out []byte
 	tape := runWithGenTape(r, failAt, func() { out, _ = bec.Encrypt(pubOf(pub.x, pub.y), msg) })
 	return fmt.Sprintf("ecies.enc %s %s %s %s", nhx(pub.x), nhx(pub.y), hx(msg), tape), out
+}
+
+// forgeECIES builds a ciphertext for `recipient` with a VALID MAC around an arbitrary body: any sender can do
+// this, so everything behind the MAC check (block alignment, PKCS#7 handling) faces attacker-chosen input.
+// plain != nil: the body is the CBC encryption of `plain` (len multiple of 16); else `rawBody` is used as is.
+func forgeECIES(r *rng, recipient pt, plain, rawBody []byte) []byte {
+	e := modN(new(big.Int).SetBytes(r.bytes(32)))
+	if e.Sign() == 0 {
+		e.SetInt64(11)
+	}
+	E := mulG(e)
+	sx, _ := bec.S256().ScalarMult(recipient.x, recipient.y, e.Bytes())
+	dk := sha512.Sum512(pad32(sx.Bytes()))
+	keyE, keyM := dk[:32], dk[32:]
+	iv := r.bytes(16)
+	out := append([]byte{}, iv...)
+	out = append(out, 0x02, 0xca, 0x00, 0x20)
+	out = append(out, pad32(E.x.Bytes())...)
+	out = append(out, 0x00, 0x20)
+	out = append(out, pad32(E.y.Bytes())...)
+	body := rawBody
+	if plain != nil {
+		blk, _ := aes.NewCipher(keyE)
+		body = make([]byte, len(plain))
+		cipher.NewCBCEncrypter(blk, iv).CryptBlocks(body, plain)
+	}
+	out = append(out, body...)
+	hm := hmac.New(sha256.New, keyM)
+	hm.Write(out)
+	return hm.Sum(out)
+}
+
+// forged ciphertexts with a valid MAC: empty body, bodies of any length, every interesting last padding byte
+func emitForgedECIES(e *emitter, r *rng, d *big.Int) {
+	pub := mulG(d)
+	dec := func(class string, ct []byte) { e.emit(class, "ecies.dec "+nhx(d)+" "+hx(ct)) }
+	dec("dec.forged-empty-body", forgeECIES(r, pub, nil, []byte{}))
+	for _, l := range []int{1, 15, 16, 17, 31, 32, 33} {
+		dec("dec.forged-rawbody", forgeECIES(r, pub, nil, r.bytes(l)))
+	}
+	for _, last := range []byte{0, 1, 2, 15, 16, 17, 32, 0x7f, 0x80, 0xff} {
+		for _, nb := range []int{1, 2} {
+			p := r.bytes(16 * nb)
+			p[len(p)-1] = last
+			dec("dec.forged-padding", forgeECIES(r, pub, p, nil))
+		}
+	}
 }
 
 func genC11(e *emitter, r *rng, thorough bool) {
@@ -144,6 +195,7 @@ func genC11(e *emitter, r *rng, thorough bool) {
 		}
 		e.emit("dec.forged-header", "ecies.dec "+nhx(d)+" "+hx(x))
 	}
+	emitForgedECIES(e, r, d)
 	e.emit("dec.wrongkey", "ecies.dec "+nhx(new(big.Int).Add(d, big.NewInt(1)))+" "+hx(ct))
 	e.emit("dec.wrongkey", "ecies.dec "+nhx(keys[0])+" "+hx(ct))
 	// K1: the negated key decrypts (x-only ECDH) — the property says a different key must fail
@@ -336,7 +388,7 @@ func genC20(e *emitter, r *rng, thorough bool) {
 		e.emit("new.escapes", "env.new "+hx(pl)+" "+tape)
 	}
 	// IsValid decision table
-	mimes := []string{"application/json", "base64", "text/plain", ""}
+	mimes := []string{"application/json", "base64", "text/plain", "", "application/json; charset=utf-8", "application/jsonl", "Application/JSON", "application/json ", "base64 ", "BASE64"}
 	nv := 6
 	if thorough {
 		nv = 60
@@ -358,7 +410,7 @@ func genC20(e *emitter, r *rng, thorough bool) {
 				payload = stdB64(raw)
 				signed = raw
 			default:
-				payload = string(randB58(r, r.intn(30))) + `\x`
+				payload = string(randB58(r, r.intn(30))) + `\x` + `{"p":"C:\\tmp"}`
 				signed = []byte(payload)
 			}
 			sig, err := priv.Sign(crypto.Sha256(signed))
@@ -420,6 +472,9 @@ func genC20(e *emitter, r *rng, thorough bool) {
 					ev("alter.mime", payload, sigHex, pkHex, m2)
 				}
 			}
+			// one envelope OBJECT validated repeatedly while its fields change (a verdict remembered in the object would show)
+			e.emit("seq."+mime, fmt.Sprintf("env.seq %s %s %s %s %s", hx([]byte(payload)), hx([]byte(sigHex)), hx([]byte(pkHex)), hx([]byte(mime)),
+				strings.Join([]string{"v", "p:" + hx([]byte(payload+"x")), "v", "p:" + hx([]byte(payload)), "v", "s:" + hx([]byte("zz")), "v", "s:" + hx([]byte(sigHex)), "k:" + hx([]byte(other)), "v", "k:" + hx([]byte(pkHex)), "m:" + hx([]byte("other/type")), "v"}, ",")))
 			if mime == "base64" {
 				ev("b64.bad", payload+"*", sigHex, pkHex, mime)
 				ev("b64.newline", payload[:len(payload)/2]+"\n"+payload[len(payload)/2:], sigHex, pkHex, mime)
@@ -541,6 +596,7 @@ func genC15(e *emitter, r *rng, thorough bool) {
 			e.emit("der.longlen-rand", "der.lax "+hx(y))
 		}
 	}
+	emitForgedECIES(e, r, big.NewInt(99))
 	// the D3 witness and friends
 	for _, w := range []string{"zzz", "zoo0", "\xff", "zzzzzzzz", "{"} {
 		e.emit("mnseed.afterlast", "bip39.seed "+hx([]byte(strings.TrimSpace(strings.Repeat(w+" ", 12))))+" -")
